@@ -69,7 +69,7 @@ theorem const_argument_reads_expected : Gen.constArgumentIndex =
     internal-invariant sites ("unknown node type", "here be dragons", stash bookkeeping); the bridged
     Go containers (type_go_*.go) left this list with fix bb377a4; a new one shows up here -/
 theorem unconverted_panics_expected : Gen.unconvertedPanics =
-    [("New", "error"), ("New", "error"), ("Value.bool", "string"), ("Value.float64", "error"), ("Value.string", "error"),
+    [("New", "error"), ("Value.bool", "string"), ("Value.float64", "error"), ("Value.string", "error"),
      ("Value.toReflectValue", "error"), ("arrayDefineOwnProperty", "string"), ("catchPanic", "interface{}"),
      ("cloner.property", "error"), ("compiler.parse", "string"), ("compiler.parseExpression", "error"),
      ("compiler.parseExpression", "string"), ("compiler.parseStatement", "string"), ("dclStash.createBinding", "error"),
